@@ -186,6 +186,7 @@ func Snap(m *ast.DataMessage) (s MsgSnap) {
 		if r := recover(); r != nil {
 			s.Panic = fmt.Sprint("observer panicked: ", r)
 		}
+		anomaly(s.Panic)
 	}()
 	s.Name, s.Stream, s.Function, s.WaitBit = m.Name(), m.StreamCode(), m.FunctionCode(), m.WaitBit()
 	s.Direction, s.Session, s.Sys = m.Direction(), m.SessionID(), fmt.Sprintf("%x", m.SystemBytes())
@@ -199,8 +200,27 @@ func Snap(m *ast.DataMessage) (s MsgSnap) {
 	_ = probeItem.ToBytes()
 	if string(raw) != s.Bytes {
 		s.Panic = fmt.Sprintf("the bytes ToBytes() returned (%x) changed when another message was encoded (now %x)", clip(s.Bytes), clip(string(raw)))
+		return s
+	}
+	// ... and the caller may do with them what it likes: the next encoding is the same as the first
+	for i := range raw {
+		raw[i] ^= 0xA5
+	}
+	if again := m.ToBytes(); string(again) != s.Bytes {
+		s.Panic = fmt.Sprintf("ToBytes() returned %x, the caller overwrote that slice, and the next ToBytes() returns %x", clip(s.Bytes), clip(string(again)))
 	}
 	return s
+}
+
+// OnAnomaly, when set, is told about every anomaly a snapshot notices by itself (an observer that panicked, returned
+// bytes that changed under the caller, an encoding that follows what the caller did to an earlier result). It is only
+// called in that case, so it adds no synchronisation to a normal run.
+var OnAnomaly func(what string)
+
+func anomaly(p string) {
+	if p != "" && OnAnomaly != nil {
+		OnAnomaly(p)
+	}
 }
 
 // probeMsg / probeItem: small complete objects, built once, only ever read (String/ToBytes) afterwards.
@@ -272,6 +292,7 @@ func SnapItem(it ast.ItemNode) (s ItemSnap) {
 		if r := recover(); r != nil {
 			s.Panic = fmt.Sprint("observer panicked: ", r)
 		}
+		anomaly(s.Panic)
 	}()
 	s.Str = Str(it)
 	raw := it.ToBytes()
@@ -282,6 +303,13 @@ func SnapItem(it ast.ItemNode) (s ItemSnap) {
 	_ = probeMsg.ToBytes()
 	if string(raw) != s.Bytes {
 		s.Panic = fmt.Sprintf("the bytes ToBytes() returned (%x) changed when another item was encoded (now %x)", clip(s.Bytes), clip(string(raw)))
+		return s
+	}
+	for i := range raw {
+		raw[i] ^= 0xA5
+	}
+	if again := it.ToBytes(); string(again) != s.Bytes {
+		s.Panic = fmt.Sprintf("ToBytes() returned %x, the caller overwrote that slice, and the next ToBytes() returns %x", clip(s.Bytes), clip(string(again)))
 	}
 	return s
 }
